@@ -1,9 +1,19 @@
 import BreezyVerif.Lemmas.C48
+import BreezyVerif.Lemmas.C48Gen
+import BreezyVerif.Lemmas.C48Lex
 /-!
 C48 — theorems.  Everything is universally quantified over pattern lists of any
 length, group sizes `g > 0` (the code uses 99) and file names of any length.
 The selection theorems hold for ARBITRARY compiled patterns (any token lists),
 hence in particular for the ones the lexer produces.
+
+The LIVE model functions (the code since ac6b52e, every extension alternative
+carries its own `.*\.`) are `globsterMatchO` / `exceptionMatchO`; the headline
+theorems are about them.  The theorems named `…_greedy` / `…_partial` and
+`group_size_witness` concern `globsterMatch` / `exceptionMatch`, the shared
+greedy extension prefix of the code before ac6b52e (historical; the harness
+reports a tie break if the live code has that shape again).  Both sets are
+instances of the generic theorems of Lemmas/C48Gen.lean.
 -/
 namespace BreezyVerif.C48
 
@@ -17,42 +27,64 @@ def firstInTypeOrder (cps : List CPat) (name : List Char) : Option CPat :=
 def extUnambiguous (cps : List CPat) (name : List Char) : Bool :=
   decide (((dotSuffixes (basename name)).filter fun s => (ofKind .ext cps).any fun p => bodyMatch p s).length ≤ 1)
 
-/-- no reported source is the empty string (Python: `""` is false) -/
-def noEmptySrc (cps : List CPat) : Bool := cps.all fun p => !p.src.isEmpty
-
-/-! ### Globster -/
+/-! ### Globster (live variant) -/
 
 /-- the reported pattern is one of the patterns and it matches (any group size, even 0) -/
 theorem reported_pattern_matches (g : Nat) (cps : List CPat) (name : List Char) (p : CPat)
-    (h : globsterMatch g cps name = some p) : p ∈ cps ∧ cpMatches p name = true := by
-  unfold globsterMatch at h
-  obtain ⟨⟨k, grp⟩, hmem, hgm⟩ := List.exists_of_findSome?_eq_some h
-  obtain ⟨hp, hm⟩ := groupMatch_some hgm
-  have hk := (mem_ofKind.mp (chunks_sub g _ grp (mem_groups hmem) p hp))
-  refine ⟨hk.1, ?_⟩
-  rw [cpMatches_eq, hk.2]; exact hm
+    (h : globsterMatchO g cps name = some p) : p ∈ cps ∧ cpMatches p name = true :=
+  gen_reported groupMatchO_sound g cps name p h
 
 /-- a name is reported ignored exactly when at least one pattern matches it -/
 theorem ignored_iff_some_matches (g : Nat) (hg : 0 < g) (cps : List CPat) (name : List Char) :
-    (globsterMatch g cps name).isSome = true ↔ ∃ p ∈ cps, cpMatches p name = true := by
-  constructor
-  · intro h
-    obtain ⟨p, hp⟩ := Option.isSome_iff_exists.mp h
-    exact ⟨p, reported_pattern_matches g cps name p hp⟩
-  · rintro ⟨p, hp, hm⟩
-    have hin : p ∈ (chunks g (ofKind p.kind cps)).flatten := by
-      rw [chunks_flatten g hg]; exact mem_ofKind.mpr ⟨hp, rfl⟩
-    obtain ⟨grp, hgrp, hpg⟩ := List.mem_flatten.mp hin
-    unfold globsterMatch
-    rw [List.findSome?_isSome_iff]
-    refine ⟨(p.kind, grp), groups_mem hgrp, ?_⟩
-    exact groupMatch_isSome hpg (by rw [← cpMatches_eq]; exact hm)
+    (globsterMatchO g cps name).isSome = true ↔ ∃ p ∈ cps, cpMatches p name = true :=
+  gen_ignored_iff groupMatchO_sound groupMatchO_complete g hg cps name
+
+/-- GROUP-SIZE INDEPENDENCE, full: for every group size the Globster reports the
+first matching pattern in type order (extension, basename, fullpath; list order
+within a type). -/
+theorem group_size_irrelevant (g : Nat) (hg : 0 < g) (cps : List CPat) (name : List Char) :
+    globsterMatchO g cps name = firstInTypeOrder cps name := by
+  have key : ∀ k, ((chunks g (ofKind k cps)).map fun grp => (k, grp)).findSome?
+      (fun kg => groupMatchO kg.1 kg.2 name) = (ofKind k cps).find? fun p => cpMatches p name := by
+    intro k
+    rw [List.findSome?_map]
+    have hcp : ∀ p ∈ ofKind k cps, cpMatches p name = kindMatches k p name := by
+      intro p hp; rw [cpMatches_eq, (mem_ofKind.mp hp).2]
+    rw [find?_congr_mem hcp]
+    conv => rhs; rw [← chunks_flatten g hg (ofKind k cps)]
+    rw [List.find?_flatten]
+    rfl
+  unfold globsterMatchO firstInTypeOrder groups typeOrder
+  simp only [List.flatMap_cons, List.flatMap_nil, List.append_nil, List.findSome?_append, List.find?_append]
+  rw [key .ext, key .base, key .full]
+
+/-- the reported pattern (not only whether one is reported) is the same for any two group sizes -/
+theorem group_size_irrelevant_reported (g g' : Nat) (hg : 0 < g) (hg' : 0 < g')
+    (cps : List CPat) (name : List Char) :
+    globsterMatchO g cps name = globsterMatchO g' cps name := by
+  rw [group_size_irrelevant g hg, group_size_irrelevant g' hg']
 
 /-- whether a name is ignored does not depend on the group size -/
 theorem group_size_irrelevant_ignored (g g' : Nat) (hg : 0 < g) (hg' : 0 < g')
     (cps : List CPat) (name : List Char) :
-    (globsterMatch g cps name).isSome = (globsterMatch g' cps name).isSome := by
-  rw [Bool.eq_iff_iff, ignored_iff_some_matches g hg, ignored_iff_some_matches g' hg']
+    (globsterMatchO g cps name).isSome = (globsterMatchO g' cps name).isSome := by
+  rw [group_size_irrelevant_reported g g' hg hg']
+
+/-! ### Globster (historical greedy variant, the code before ac6b52e) -/
+
+theorem reported_pattern_matches_greedy (g : Nat) (cps : List CPat) (name : List Char) (p : CPat)
+    (h : globsterMatch g cps name = some p) : p ∈ cps ∧ cpMatches p name = true :=
+  gen_reported groupMatch_sound g cps name p h
+
+theorem ignored_iff_some_matches_greedy (g : Nat) (hg : 0 < g) (cps : List CPat) (name : List Char) :
+    (globsterMatch g cps name).isSome = true ↔ ∃ p ∈ cps, cpMatches p name = true :=
+  gen_ignored_iff groupMatch_sound groupMatch_complete g hg cps name
+
+/-- on WHETHER a name is ignored the two variants agree, for all group sizes -/
+theorem variants_agree_on_ignored (g g' : Nat) (hg : 0 < g) (hg' : 0 < g')
+    (cps : List CPat) (name : List Char) :
+    (globsterMatch g cps name).isSome = (globsterMatchO g' cps name).isSome := by
+  rw [Bool.eq_iff_iff, ignored_iff_some_matches_greedy g hg, ignored_iff_some_matches g' hg']
 
 theorem kind_group_find (g : Nat) (hg : 0 < g) (k : Kind) (cps : List CPat) (name : List Char)
     (hk : k ≠ .ext) :
@@ -106,7 +138,7 @@ theorem ext_group_find (g : Nat) (hg : 0 < g) (cps : List CPat) (name : List Cha
     | some q => rfl
     | none => exact ih (fun grp h => hgrp grp (by simp [h]))
 
-/-- GROUP-SIZE INDEPENDENCE of the reported pattern: for every group size the
+/-- HISTORICAL (greedy variant): for every group size the
 Globster reports the first matching pattern in type order — PARTIAL: under the
 hypothesis that at most one dot of the last component is followed by text that
 an extension pattern matches.  Without it the reported pattern does depend on
@@ -131,29 +163,10 @@ theorem first_in_type_order_noext (g : Nat) (hg : 0 < g) (cps : List CPat) (name
     List.filter_eq_nil_iff.mpr (by simp)
   simp [extUnambiguous, this, hf]
 
-/-- VARIANT: if every extension alternative carried its own `.*\.` (see
-`groupMatchO`; the small patch proposed with the finding), group-size
-independence of the reported pattern would hold without any hypothesis. -/
-theorem group_size_irrelevant_inorder (g : Nat) (hg : 0 < g) (cps : List CPat) (name : List Char) :
-    globsterMatchO g cps name = firstInTypeOrder cps name := by
-  have key : ∀ k, ((chunks g (ofKind k cps)).map fun grp => (k, grp)).findSome?
-      (fun kg => groupMatchO kg.1 kg.2 name) = (ofKind k cps).find? fun p => cpMatches p name := by
-    intro k
-    rw [List.findSome?_map]
-    have hcp : ∀ p ∈ ofKind k cps, cpMatches p name = kindMatches k p name := by
-      intro p hp; rw [cpMatches_eq, (mem_ofKind.mp hp).2]
-    rw [find?_congr_mem hcp]
-    conv => rhs; rw [← chunks_flatten g hg (ofKind k cps)]
-    rw [List.find?_flatten]
-    rfl
-  unfold globsterMatchO firstInTypeOrder groups typeOrder
-  simp only [List.flatMap_cons, List.flatMap_nil, List.append_nil, List.findSome?_append, List.find?_append]
-  rw [key .ext, key .base, key .full]
-
 def wAB : CPat := ⟨['*', '.', 'a', '.', 'b'], .ext, [.lit 'a', .lit '.', .lit 'b']⟩
 def wB : CPat := ⟨['*', '.', 'b'], .ext, [.lit 'b']⟩
 
-/-- WITNESS (reproduced on the real code with 100 patterns): with `*.a.b` before
+/-- HISTORICAL WITNESS (greedy variant; reproduced on the code before ac6b52e with 100 patterns): with `*.a.b` before
 `*.b`, the name `x.a.b` is reported as `*.a.b` when the two patterns fall into
 different groups and as `*.b` when they share a group. -/
 theorem group_size_witness :
@@ -162,79 +175,88 @@ theorem group_size_witness :
     globsterMatch 2 [wAB, wB] ['x', '.', 'a', '.', 'b'] = some wB := by
   decide
 
-/-! ### ExceptionGlobster -/
+/-! ### ExceptionGlobster (live variant) -/
 
 theorem truthy_iff (g : Nat) (hg : 0 < g) (cps : List CPat) (name : List Char) (hne : noEmptySrc cps = true) :
-    truthy (globsterMatch g cps name) = true ↔ ∃ p ∈ cps, cpMatches p name = true := by
-  rw [← ignored_iff_some_matches g hg]
-  cases h : globsterMatch g cps name with
-  | none => simp [truthy]
-  | some p =>
-    have hp := (reported_pattern_matches g cps name p h).1
-    have := List.all_eq_true.mp hne p hp
-    simp [truthy, this]
-
-theorem globster_none_of_no_match (g : Nat) (cps : List CPat) (name : List Char)
-    (h : ¬ ∃ p ∈ cps, cpMatches p name = true) : globsterMatch g cps name = none := by
-  cases hm : globsterMatch g cps name with
-  | none => rfl
-  | some p => exact absurd ⟨p, reported_pattern_matches g cps name p hm⟩ h
+    truthy (globsterMatchO g cps name) = true ↔ ∃ p ∈ cps, cpMatches p name = true :=
+  gen_truthy_iff groupMatchO_sound groupMatchO_complete g hg cps name hne
 
 /-- a matching `!!` pattern wins: the result is `!!` + a matching `!!` pattern -/
 theorem exception_double (g : Nat) (hg : 0 < g) (p0 p1 p2 : List CPat) (name : List Char)
     (hne : noEmptySrc p2 = true) (h2 : ∃ p ∈ p2, cpMatches p name = true) :
-    ∃ q ∈ p2, cpMatches q name = true ∧ exceptionMatch g p0 p1 p2 name = some ('!' :: '!' :: q.src) := by
-  have ht := (truthy_iff g hg p2 name hne).mpr h2
-  cases hm : globsterMatch g p2 name with
-  | none => rw [hm] at ht; simp [truthy] at ht
-  | some q =>
-    obtain ⟨hq, hqm⟩ := reported_pattern_matches g p2 name q hm
-    refine ⟨q, hq, hqm, ?_⟩
-    unfold exceptionMatch
-    rw [hm] at ht
-    simp only [hm, ht, if_true, Option.map_some]
+    ∃ q ∈ p2, cpMatches q name = true ∧ exceptionMatchO g p0 p1 p2 name = some ('!' :: '!' :: q.src) :=
+  gen_exception_double groupMatchO_sound groupMatchO_complete g hg p0 p1 p2 name hne h2
 
 /-- no `!!` pattern matches but a `!` pattern does: not ignored -/
 theorem exception_single (g : Nat) (hg : 0 < g) (p0 p1 p2 : List CPat) (name : List Char)
     (hne : noEmptySrc p1 = true) (h2 : ¬ ∃ p ∈ p2, cpMatches p name = true)
     (h1 : ∃ p ∈ p1, cpMatches p name = true) :
-    exceptionMatch g p0 p1 p2 name = none := by
-  have ht := (truthy_iff g hg p1 name hne).mpr h1
-  have hn : truthy (none : Option CPat) = false := rfl
-  unfold exceptionMatch
-  simp only [globster_none_of_no_match g p2 name h2, hn, ht, if_true, Bool.false_eq_true, if_false]
+    exceptionMatchO g p0 p1 p2 name = none :=
+  gen_exception_single groupMatchO_sound groupMatchO_complete g hg p0 p1 p2 name hne h2 h1
 
 /-- neither kind of exception matches: the plain Globster decides -/
 theorem exception_plain (g : Nat) (p0 p1 p2 : List CPat) (name : List Char)
     (h2 : ¬ ∃ p ∈ p2, cpMatches p name = true) (h1 : ¬ ∃ p ∈ p1, cpMatches p name = true) :
-    exceptionMatch g p0 p1 p2 name = (globsterMatch g p0 name).map (·.src) := by
-  unfold exceptionMatch
-  simp [globster_none_of_no_match g p2 name h2, globster_none_of_no_match g p1 name h1, truthy]
+    exceptionMatchO g p0 p1 p2 name = (globsterMatchO g p0 name).map (·.src) :=
+  gen_exception_plain groupMatchO_sound g p0 p1 p2 name h2 h1
 
 /-- the complete decision table of `!` / `!!` precedence -/
 theorem exception_ignored_iff (g : Nat) (hg : 0 < g) (p0 p1 p2 : List CPat) (name : List Char)
     (hne1 : noEmptySrc p1 = true) (hne2 : noEmptySrc p2 = true) :
+    (exceptionMatchO g p0 p1 p2 name).isSome = true ↔
+      (∃ p ∈ p2, cpMatches p name = true) ∨
+      ((¬ ∃ p ∈ p1, cpMatches p name = true) ∧ ∃ p ∈ p0, cpMatches p name = true) :=
+  gen_exception_ignored_iff groupMatchO_sound groupMatchO_complete g hg p0 p1 p2 name hne1 hne2
+
+/-- the whole RESULT of `ExceptionGlobster.match` (not only whether it is
+`None`) is independent of the group size; no hypothesis on the patterns -/
+theorem exception_group_size_irrelevant (g g' : Nat) (hg : 0 < g) (hg' : 0 < g') (p0 p1 p2 : List CPat)
+    (name : List Char) :
+    exceptionMatchO g p0 p1 p2 name = exceptionMatchO g' p0 p1 p2 name := by
+  unfold exceptionMatchO
+  rw [group_size_irrelevant_reported g g' hg hg' p2, group_size_irrelevant_reported g g' hg hg' p1,
+    group_size_irrelevant_reported g g' hg hg' p0]
+
+/-- the result written out over the three lists: the first matching `!!`
+pattern in type order, else nothing if a `!` pattern matches, else the first
+matching plain pattern in type order -/
+theorem exception_spec (g : Nat) (hg : 0 < g) (p0 p1 p2 : List CPat) (name : List Char)
+    (hne1 : noEmptySrc p1 = true) (hne2 : noEmptySrc p2 = true) :
+    exceptionMatchO g p0 p1 p2 name =
+      match firstInTypeOrder p2 name with
+      | some q => some ('!' :: '!' :: q.src)
+      | none => if (p1.any fun p => cpMatches p name) then none else (firstInTypeOrder p0 name).map (·.src) := by
+  cases h2 : firstInTypeOrder p2 name with
+  | some q =>
+    have hm : globsterMatchO g p2 name = some q := by rw [group_size_irrelevant g hg]; exact h2
+    have hq := (reported_pattern_matches g p2 name q hm).1
+    have hsrc := List.all_eq_true.mp hne2 q hq
+    unfold exceptionMatchO
+    simp only [hm, truthy, hsrc, if_true, Option.map_some]
+  | none =>
+    have hm : globsterMatchO g p2 name = none := by rw [group_size_irrelevant g hg]; exact h2
+    have hn2 : ¬ ∃ p ∈ p2, cpMatches p name = true := by
+      intro h
+      have := (ignored_iff_some_matches g hg p2 name).mpr h
+      rw [hm] at this; simp at this
+    simp only []
+    by_cases h1 : ∃ p ∈ p1, cpMatches p name = true
+    · rw [exception_single g hg p0 p1 p2 name hne1 hn2 h1]
+      have : (p1.any fun p => cpMatches p name) = true := List.any_eq_true.mpr h1
+      simp [this]
+    · rw [exception_plain g p0 p1 p2 name hn2 h1, group_size_irrelevant g hg]
+      have : (p1.any fun p => cpMatches p name) = false := by
+        apply Bool.eq_false_iff.mpr
+        intro h; exact h1 (List.any_eq_true.mp h)
+      simp [this]
+
+/-- HISTORICAL (greedy variant): the decision table also held before ac6b52e -/
+theorem exception_ignored_iff_greedy (g : Nat) (hg : 0 < g) (p0 p1 p2 : List CPat) (name : List Char)
+    (hne1 : noEmptySrc p1 = true) (hne2 : noEmptySrc p2 = true) :
     (exceptionMatch g p0 p1 p2 name).isSome = true ↔
       (∃ p ∈ p2, cpMatches p name = true) ∨
-      ((¬ ∃ p ∈ p1, cpMatches p name = true) ∧ ∃ p ∈ p0, cpMatches p name = true) := by
-  by_cases h2 : ∃ p ∈ p2, cpMatches p name = true
-  · obtain ⟨q, _, _, hq⟩ := exception_double g hg p0 p1 p2 name hne2 h2
-    simp [hq, h2]
-  · by_cases h1 : ∃ p ∈ p1, cpMatches p name = true
-    · rw [exception_single g hg p0 p1 p2 name hne1 h2 h1]
-      simp only [Option.isSome_none, Bool.false_eq_true, false_iff, not_or, not_and]
-      exact ⟨h2, fun h => absurd h1 h⟩
-    · rw [exception_plain g p0 p1 p2 name h2 h1, Option.isSome_map, ignored_iff_some_matches g hg]
-      constructor
-      · intro h; exact Or.inr ⟨h1, h⟩
-      · rintro (h | ⟨_, h⟩)
-        · exact absurd h h2
-        · exact h
-
-theorem exception_group_size_irrelevant (g g' : Nat) (hg : 0 < g) (hg' : 0 < g') (p0 p1 p2 : List CPat)
-    (name : List Char) (hne1 : noEmptySrc p1 = true) (hne2 : noEmptySrc p2 = true) :
-    (exceptionMatch g p0 p1 p2 name).isSome = (exceptionMatch g' p0 p1 p2 name).isSome := by
-  rw [Bool.eq_iff_iff, exception_ignored_iff g hg _ _ _ _ hne1 hne2, exception_ignored_iff g' hg' _ _ _ _ hne1 hne2]
+      ((¬ ∃ p ∈ p1, cpMatches p name = true) ∧ ∃ p ∈ p0, cpMatches p name = true) :=
+  gen_exception_ignored_iff groupMatch_sound groupMatch_complete g hg p0 p1 p2 name hne1 hne2
 
 /-- WITNESS that the non-emptiness hypothesis is needed: an exception pattern `!`
 (empty body) matches the path `a/` (empty last component), but Python's
@@ -242,7 +264,7 @@ truthiness test of `""` lets the plain `*` win.  File names have a non-empty
 last component, so this is outside the property's quantifier. -/
 theorem exception_empty_pattern_witness :
     cpMatches ⟨[], .base, []⟩ ['a', '/'] = true ∧
-    exceptionMatch 99 [⟨['*'], .base, [.star]⟩] [⟨[], .base, []⟩] [] ['a', '/'] = some ['*'] := by
+    exceptionMatchO 99 [⟨['*'], .base, [.star]⟩] [⟨[], .base, []⟩] [] ['a', '/'] = some ['*'] := by
   decide
 
 /-- the constructor's split: `!!x` goes to the double-exception list as `x`,
@@ -392,6 +414,60 @@ theorem lex_starstar_prefix (p : List Char) :
     generalize lexRun true .seg p = r
     cases r <;> rfl
 
+/-- `/**/` (two or more stars) in the MIDDLE of a full-path pattern: whenever
+the text `a` before it leaves the lexer inside a segment (state `mid`, or
+`stars` after a `*`), the pattern `a/**…*/p` lexes to the tokens of `a`, a
+literal `/`, the any-directory-prefix token, and the tokens of `p`. -/
+theorem lex_starstar_mid (a p : List Char) (st : LexSt) (ta : List Tok) (n : Nat)
+    (ha : lexSteps true .seg a = some (st, ta)) (hst : st = .mid ∨ st = .stars) :
+    lexRun true .seg (a ++ '/' :: '*' :: (List.replicate (n + 1) '*' ++ '/' :: p)) =
+      (lexRun true .seg p).map fun r => ta ++ (Tok.lit '/' :: Tok.starstar :: r) := by
+  rw [lexRun_append true a _ .seg st ta ha]
+  have e1 : step true st '/' = some (.seg, [Tok.lit '/']) := by
+    rcases hst with rfl | rfl <;> rfl
+  have e2 : step true .seg '*' = some (.segStars 0, []) := by decide
+  simp only [lexRun, e1, e2]
+  rw [segStars_run p (n + 1) 0]
+  have : (0 + (n + 1) ≥ 1) := by omega
+  simp only [this, if_true]
+  cases lexRun true .seg p <;> simp
+
+/-- what the token sequence of `a/**/b` means: `a`, a `/`, then either `b`
+directly or any further directories before `b` -/
+theorem starstar_mid_matches (ta tb : List Tok) (name : List Char) :
+    matchToks true (Tok.lit '/' :: Tok.starstar :: tb) name = true ↔
+      ∃ s, name = '/' :: s ∧ (matchToks true tb s = true ∨ ∃ d r, s = d ++ '/' :: r ∧ matchToks true tb r = true) := by
+  cases name with
+  | nil => simp [matchToks]
+  | cons x s =>
+    simp only [matchToks, Bool.and_eq_true, beq_iff_eq, Bool.or_eq_true, afterSlash_iff, List.cons.injEq]
+    constructor
+    · rintro ⟨rfl, h⟩; exact ⟨s, ⟨rfl, rfl⟩, h⟩
+    · rintro ⟨s', ⟨rfl, rfl⟩, h⟩; exact ⟨rfl, h⟩
+
+example : lexSteps true .seg ['a', '*'] = some (.stars, [.lit 'a', .star]) := by decide
+example : compile ['a', '/', '*', '*', '/', 'b'] =
+    some ⟨['a', '/', '*', '*', '/', 'b'], .full, [.lit 'a', .lit '/', .starstar, .lit 'b']⟩ := by decide
+example : matchToks true [.lit 'a', .lit '/', .starstar, .lit 'b'] ['a', '/', 'b'] = true ∧
+    matchToks true [.lit 'a', .lit '/', .starstar, .lit 'b'] ['a', '/', 'x', '/', 'y', '/', 'b'] = true ∧
+    matchToks true [.lit 'a', .lit '/', .starstar, .lit 'b'] ['a', 'b'] = false ∧
+    matchToks true [.lit 'a', .lit '/', .starstar, .lit 'b'] ['a', '/', 'x', 'b'] = false := by decide
+
+/-- `normalize_pattern` is idempotent -/
+theorem normalize_idempotent (p : List Char) : normalize (normalize p) = normalize p := normalize_idem p
+
+/-- a normalised pattern has no backslash-as-separator left, no doubled and no
+trailing slash — unless it is an `RE:` / `!RE:` pattern, which keeps its slashes -/
+theorem normalize_clean (p : List Char) (h : isRe p = false) : cleanFrom false (normalize p) = true := by
+  have hre' : (startsWith reP p || startsWith nreP p) = false := by unfold isRe at h; exact h
+  rw [normalize_nonre p hre']
+  split
+  · exact clean_rstrip _ (clean_collapseAux p false)
+  · exact clean_collapseAux p false
+
+example : normalize ['a', '\\', '\\', 'b', '/', '/'] = ['a', '/', 'b'] ∧ isRe ['a', '\\', 'b'] = false ∧
+    normalize ['R', 'E', ':', 'a', '/', '/', 'b', '/'] = ['R', 'E', ':', 'a', '/', '/', 'b'] := by decide
+
 /-- `*` matches any run of characters, which in full-path mode must not contain `/` -/
 theorem star_iff (full : Bool) (ts : List Tok) (s : List Char) :
     matchToks full (.star :: ts) s = true ↔
@@ -464,8 +540,11 @@ example : extUnambiguous [wB, wAB, ⟨['*', '.', '*'], .ext, [.star]⟩] ['d', '
 example : extUnambiguous [wAB, wB] ['x', '.', 'a', '.', 'b'] = false := by decide
 -- exception hypotheses
 example : noEmptySrc [wAB, wB] = true ∧ (∃ p ∈ [wAB, wB], cpMatches p ['x', '.', 'b'] = true) := by decide
-example : exceptionMatch 99 [wB] [wAB] [] ['x', '.', 'a', '.', 'b'] = none ∧
-    exceptionMatch 99 [wB] [wAB] [wB] ['x', '.', 'a', '.', 'b'] = some ['!', '!', '*', '.', 'b'] := by decide
+example : exceptionMatchO 99 [wB] [wAB] [] ['x', '.', 'a', '.', 'b'] = none ∧
+    exceptionMatchO 99 [wB] [wAB] [wB] ['x', '.', 'a', '.', 'b'] = some ['!', '!', '*', '.', 'b'] := by decide
+-- the live variant on the historical witness: `*.a.b` is reported for both groupings
+example : globsterMatchO 1 [wAB, wB] ['x', '.', 'a', '.', 'b'] = some wAB ∧
+    globsterMatchO 2 [wAB, wB] ['x', '.', 'a', '.', 'b'] = some wAB := by decide
 -- basename_dir_irrelevant
 example : wB.kind ≠ .full ∧ '/' ∉ ['x', '.', 'b'] ∧ cpMatches wB (['d', '/', 'e'] ++ '/' :: ['x', '.', 'b']) = true := by decide
 -- the lexer on a full-path pattern: `./**/a*/[!b-c]?`
